@@ -27,9 +27,8 @@ PART = "consnet"
 SUB = "consnet"
 NV = 4
 # predicates that say "something is missing at the quiescent point": confirmed on a replay with slow settling before they count
-LATE = {"Delivery:missing", "Relay:missing", "Relay:getdata-unanswered", "ProposalTxs:no-response", "ProposalTxs:bad-not-refused",
-        "ProposalTxs:peer-not-asked", "BlockOut:not-in-ledger", "BlockOut:not-announced", "BlockOut:getdata-unanswered",
-        "ServiceStart:not-started", "Stalled", "ProposalTxs:pending-never-included", "x:LedgerCount"}
+LATE = {"Delivery:missing", "Relay:missing", "Relay:getdata-unanswered", "Relay:not-advertised", "BlockOut:not-in-ledger", "BlockOut:not-announced",
+        "BlockOut:getdata-unanswered", "ServiceStart:not-started", "Stalled", "Stalled:undecided", "ProposalTxs:pending-never-included", "x:LedgerCount"}
 
 
 # ------------------------------------------------------------------------------------------------ scenario DSL
@@ -149,25 +148,17 @@ def sc_backup_round(name, rnd, me=None, srih=False, h0=0, unsolicited=0, dup=Fal
         s.connect(lp)       # a peer that connects now must be told about the pooled consensus payloads
         s.sync()
     sent = []
-    for v in talk:
-        if rnd.random() < 0.8 or silent:
-            sent.append(s.x(rnd.randrange(1, npeers + 1), "PrepareResponse", v, via=rnd.choice(["push", "push", "inv"])))
+    # honest validators: they answer a proposal they can verify and commit once M preparations exist (the node's included)
+    for v in ([] if badtx else talk):
+        sent.append(s.x(rnd.randrange(1, npeers + 1), "PrepareResponse", v, via=rnd.choice(["push", "push", "inv"])))
     junk()
-    s.sync()
-    signers = [prim] + talk
-    rnd.shuffle(signers)
-    for v in signers[: rnd.choice([2, 3])]:
-        c = s.x(rnd.randrange(1, npeers + 1), "Commit", v, via=rnd.choice(["push", "push", "inv"]))
-        sent.append(c)
-        if dup and rnd.random() < 0.4:
-            s.resend(rnd.randrange(1, npeers + 1), c)
-        if rnd.random() < 0.3:
-            junk()
     s.sync()
     if sent and rnd.random() < 0.5:
         s.step("fetchx", p=rnd.randrange(1, npeers + 1), x=rnd.choice(sent))
     if not badtx:
-        s.step("decide", n=me, i=h, t=txs, silent=[quiet] if quiet is not None else [])
+        # the commits (sent only once M preparations exist - the fake validators are honest), the node's block or, if it does not get
+        # there, timers and change views
+        s.step("decide", n=me, i=h, t=txs, silent=[quiet] if quiet is not None else [], via=rnd.choice(["push", "inv", "mix"]), times=1 if dup else 0)
         if fetch:
             s.step("fetchblk", p=rnd.randrange(1, npeers + 1), i=h, by=rnd.choice(["hash", "index"]))
     s.sync()
@@ -228,6 +219,7 @@ def sc_behind(name, rnd, serve):
         s.step("timeout", n=me)
         s.sync()
     else:
+        s.step("await", n=me, i=3)
         s.sync()
         s.step("decide", n=me, i=4, t=["t1"], silent=[])
         s.step("fetchblk", p=2, i=4, by="hash")
@@ -507,6 +499,9 @@ def judge(ctx, trace, scenarios, confirm=True):
             continue
         if confirm and not events[s].get("slow") and all(w in LATE for w in judged):
             late.setdefault(name, []).append((judged, f, s, li))
+            lp = ctx.extra.setdefault("consnet_late_preds", {})
+            for w in judged:
+                lp[w] = lp.get(w, 0) + 1
             continue
         if all(w.startswith("x:") for w in judged):
             bad_harness.append((name, judged, ev))
@@ -551,8 +546,46 @@ def compact(evs, keep=160):
     return evs[: keep // 2] + [{"event": "...", "skipped": len(evs) - keep}] + evs[-keep // 2:]
 
 
+def sc_mesh(name, rnd, silent=None, stop=None, heights=3, srih=False):
+    """4 validators as 4 REAL servers (each with its real consensus service and its own ledger) connected to each other over loopback
+    TCP; `silent`: that validator never runs (3 servers); `stop`: that server shuts down after the first block.  Transactions enter at
+    random servers; the synchronous phase fires the earliest timer and lets everything settle; all ledgers are compared, every block
+    is fetched over the wire and offered to the reference ledger."""
+    vals = [v for v in range(NV) if v != silent]
+    ntx = rnd.randrange(2, 6)
+    d = {"name": name, "kind": "mesh", "srih": srih, "pre": 0, "ntx": ntx, "peers": [], "steps": [],
+         "nodes": [{"id": v, "h0": 0, "min_peers": len(vals) - 1} for v in vals]}
+    for k, v in enumerate(vals):
+        d["peers"].append({"id": k + 1, "n": v, "adv": 0, "mute": False, "order": "asc", "dup": False, "blocks": False})
+    st = d["steps"]
+    st.append({"op": "started"})
+    for k in range(len(vals)):
+        st.append({"op": "connect", "p": k + 1})
+    st.append({"op": "sync"})
+    txs = ["t%d" % i for i in range(1, ntx + 1)]
+    for t in txs:
+        st.append({"op": "tx", "p": rnd.randrange(1, len(vals) + 1), "t": [t], "via": rnd.choice(["push", "inv"])})
+    st.append({"op": "sync"})
+    bound = 12
+    if stop is not None:
+        st.append({"op": "rounds", "rounds": bound, "i": bound, "dh": 1})
+        st.append({"op": "stop", "n": stop})
+        st.append({"op": "sync"})
+    st.append({"op": "rounds", "rounds": bound * heights, "i": bound, "dh": heights})
+    watch = next(k + 1 for k, v in enumerate(vals) if v != stop)
+    st.append({"op": "included", "n": vals[watch - 1], "t": txs})
+    st.append({"op": "feedall", "p": watch})
+    st.append({"op": "sync"})
+    return d
+
+
 def mesh_scenarios(rnd, q):
-    return []
+    out = [sc_mesh("mesh-all", rnd, heights=3), sc_mesh("mesh-silent", rnd, silent=rnd.randrange(NV), heights=3, srih=True)]
+    if not q:
+        out.append(sc_mesh("mesh-crash", rnd, stop=rnd.randrange(NV), heights=4))
+        for k in range(12):
+            out.append(sc_mesh("mesh-%d" % k, rnd, silent=rnd.choice([None, None, 0, 1, 2, 3]), stop=None, heights=rnd.choice([3, 5, 9]), srih=k % 2 == 1))
+    return out
 
 
 def selftest(ctx, trace):
